@@ -96,7 +96,7 @@ def run_total(unit, only=None):
     warnings.simplefilter("ignore")
     _, d, cfgname, tier = unit
     res = core.UnitResult()
-    selfref = bool({"dcself", "dcselft", "dcmut"} & set(space.kinds_of(d)))
+    selfref = bool({"dcself", "dcselft", "dcmut", "dcselfg"} & set(space.kinds_of(d)))
 
     def V(clause, oc, key, detail):
         res.violation(f"{clause}|{space.show(d)}|{cfgname}|{oc}", clause, oc,
